@@ -136,43 +136,10 @@ func zzNoEmptySegment(p string) bool {
 	return true
 }
 
-// VerifC04_Precedence: N rules (host, path, type) and one request; the lookup over the generated
-// files returns an exact rule equal to the path if there is one, else a matching rule with the
-// longest declared path, and never a rule of another host.
-func VerifC04_Precedence() {
-	n := nd.Param("RULES", 2)
-	maxP := nd.Param("MAXPATH", 2)
-	maxR := nd.Param("MAXREQ", 3)
-	nhosts := nd.Param("HOSTS", 2)
-	order := zzC04Orders[nd.Choice("order", nd.Param("ORDERS", len(zzC04Orders)))]
-
-	rules := make([]zzRule, n)
-	for i := 0; i < n; i++ {
-		r := zzRule{
-			host:  zzC04Hosts[nd.Choice("host", nhosts)],
-			match: zzC04Types[nd.Choice("type", len(zzC04Types))],
-			id:    string(rune('1' + i)),
-		}
-		r.path = "/" + nd.String("path", nd.Choice("pathlen", maxP+1), zzC04Alphabet)
-		nd.Assume(zzNoEmptySegment(r.path))
-		for j := 0; j < i; j++ {
-			// the converter rejects a second declaration of the same (host, path, type)
-			nd.Assume(!(rules[j].host == r.host && rules[j].path == r.path && rules[j].match == r.match))
-		}
-		rules[i] = r
-	}
-
-	maps := CreateMaps(order)
-	hm := maps.AddMap("/m/_front.map")
-	for i, r := range rules {
-		hp := &HostPath{order: i, Link: CreateHostPathLink(r.host, r.path, r.match)}
-		hm.AddHostnamePathMapping(r.host, hp, r.id)
-	}
-	files := hm.MatchFiles()
-
-	reqHost := zzC04Hosts[nd.Choice("reqhost", nhosts)]
-	reqPath := "/" + nd.String("req", nd.Choice("reqlen", maxR+1), zzC04Alphabet)
-	nd.Assume(zzNoEmptySegment(reqPath))
+// zzC04Check compares the lookup of one request over the generated files with the documented
+// outcome: an exact rule equal to the path if there is one, else a matching rule with the longest
+// declared path, never a rule of another host.
+func zzC04Check(rules []zzRule, files []*MatchFile, reqHost, reqPath string) {
 	got := zzLookup(files, reqHost+"#"+reqPath)
 
 	// the documented outcome
@@ -212,5 +179,94 @@ func VerifC04_Precedence() {
 		nd.Assert(len(w.path) == best, "longest-declared-path")
 		nd.Reach("longest-hit")
 	}
+}
+
+var zzC04Chain = []string{"/", "/a", "/a/b", "/a/b/c", "/a/b/c/d", "/a/b/c/d/e"}
+
+// VerifC04_NestedChain: LEVELS nested paths of one host (/, /a, /a/b, ...), each present or not and
+// of any type, declared shallow-first or deep-first, under any path-type order; every request
+// among the declared paths and their neighbours (p, p/, p/x, px) is answered as documented.
+// Deep chains of alternating types exercise the moves of entries between match files and the
+// bounds (_upper) they leave behind from one pairing to the next.
+func VerifC04_NestedChain() {
+	levels := nd.Param("LEVELS", 5)
+	order := zzC04Orders[nd.Choice("order", nd.Param("ORDERS", len(zzC04Orders)))]
+	optional := nd.Param("OPTIONAL", 0) == 1
+	var rules []zzRule
+	for i := 0; i < levels; i++ {
+		if optional && !nd.Bool("present") {
+			continue
+		}
+		rules = append(rules, zzRule{host: "d.l", path: zzC04Chain[i], match: zzC04Types[nd.Choice("type", len(zzC04Types))], id: string(rune('1' + i))})
+	}
+	if nd.Bool("deep.first") {
+		for i, j := 0, len(rules)-1; i < j; i, j = i+1, j-1 {
+			rules[i], rules[j] = rules[j], rules[i]
+		}
+	}
+	if nd.Bool("other.host") {
+		rules = append(rules, zzRule{host: "x.d.l", path: "/a/b", match: MatchPrefix, id: "9"})
+	}
+	maps := CreateMaps(order)
+	hm := maps.AddMap("/m/_front.map")
+	for i, r := range rules {
+		hp := &HostPath{order: i, Link: CreateHostPathLink(r.host, r.path, r.match)}
+		hm.AddHostnamePathMapping(r.host, hp, r.id)
+	}
+	files := hm.MatchFiles()
+	for i := 0; i < levels; i++ {
+		p := zzC04Chain[i]
+		probes := []string{p, p + "x", p + "/x"}
+		if p != "/" {
+			probes = append(probes, p+"/")
+		} else {
+			probes = []string{"/", "/x", "/x/y"}
+		}
+		for _, req := range probes {
+			nd.Record("request " + req)
+			zzC04Check(rules, files, "d.l", req)
+		}
+	}
+	nd.Reach("end")
+}
+
+// VerifC04_Precedence: N rules (host, path, type) and one request; the lookup over the generated
+// files returns an exact rule equal to the path if there is one, else a matching rule with the
+// longest declared path, and never a rule of another host.
+func VerifC04_Precedence() {
+	n := nd.Param("RULES", 2)
+	maxP := nd.Param("MAXPATH", 2)
+	maxR := nd.Param("MAXREQ", 3)
+	nhosts := nd.Param("HOSTS", 2)
+	order := zzC04Orders[nd.Choice("order", nd.Param("ORDERS", len(zzC04Orders)))]
+
+	rules := make([]zzRule, n)
+	for i := 0; i < n; i++ {
+		r := zzRule{
+			host:  zzC04Hosts[nd.Choice("host", nhosts)],
+			match: zzC04Types[nd.Choice("type", len(zzC04Types))],
+			id:    string(rune('1' + i)),
+		}
+		r.path = "/" + nd.String("path", nd.Choice("pathlen", maxP+1), zzC04Alphabet)
+		nd.Assume(zzNoEmptySegment(r.path))
+		for j := 0; j < i; j++ {
+			// the converter rejects a second declaration of the same (host, path, type)
+			nd.Assume(!(rules[j].host == r.host && rules[j].path == r.path && rules[j].match == r.match))
+		}
+		rules[i] = r
+	}
+
+	maps := CreateMaps(order)
+	hm := maps.AddMap("/m/_front.map")
+	for i, r := range rules {
+		hp := &HostPath{order: i, Link: CreateHostPathLink(r.host, r.path, r.match)}
+		hm.AddHostnamePathMapping(r.host, hp, r.id)
+	}
+	files := hm.MatchFiles()
+
+	reqHost := zzC04Hosts[nd.Choice("reqhost", nhosts)]
+	reqPath := "/" + nd.String("req", nd.Choice("reqlen", maxR+1), zzC04Alphabet)
+	nd.Assume(zzNoEmptySegment(reqPath))
+	zzC04Check(rules, files, reqHost, reqPath)
 	nd.Reach("end")
 }
